@@ -164,10 +164,12 @@ def sanify_tower(rep):
     OLD = z3.Const('hint_overrides_in', M.Obj); T = z3.Const('TOWER', M.Obj); TF = z3.Const('tower_float', M.Obj); TC = z3.Const('tower_complex', M.Obj)
     Fl, Cx = uni.const(float), uni.const(complex); k = z3.Const('k_', M.Obj); NONE = uni.const(None)
     def m_tower(ex, s, f, a, kw, w): return [(s, VObj(T))]
+    from beartype._data.kind.datakindiota import SENTINEL as _SENTINEL
+    SENT = uni.const(_SENTINEL)      # trusted (DESIGN 8): no user value is beartype's private sentinel
     ex = Exec(uni, dict(mod.__dict__), call_model={mod._hint_overrides_pep484_tower: m_tower}, name='sanify_tower'); ex.bitor_is_dict_union = True
     s0, ref = ex.new_dict(St(), [('hint_overrides', VObj(OLD)), ('is_pep484_tower', VPy(True))])
     tower_ax = [M.inst(T, uni.const(cabc.Mapping)), M.inst(OLD, uni.const(cabc.Mapping)), z3.ForAll([k], M.mem(T, k) == z3.Or(k == Fl, k == Cx)), M.mget(T, Fl) == TF, M.mget(T, Cx) == TC,
-                TF != NONE, TC != NONE, M.truthy(TF), M.truthy(TC), z3.ForAll([k], z3.Implies(M.mem(OLD, k), M.mget(OLD, k) != NONE)),
+                TF != NONE, TC != NONE, M.truthy(TF), M.truthy(TC), z3.Not(M.truthy(NONE)), z3.ForAll([k], z3.Implies(M.mem(OLD, k), M.mget(OLD, k) != SENT)),      # NO assumption about the user's override values: None (a valid hint) and other falsy hints included
                 # == on hints: an object equals itself (the tower's unions are typing objects with a reflexive __eq__)
                 M.eq(TF, TF), M.eq(TC, TC)]
     outs = ex.exec_block([st for st in node.body if not isinstance(st, ast.Assert) and not (isinstance(st, ast.Expr) and isinstance(st.value, ast.Constant))], s0.set('conf_kwargs', ref))
@@ -183,6 +185,18 @@ def sanify_tower(rep):
             r = pr.prove(pc, conflict)
             rep.add(f'C18.sanify_tower.post.raises_only_on_conflict.path{i}', r.status if ok else 'refuted', time=r.time, backend=r.backend, where='BeartypeConfParamException only when the user overrides float / complex with something else')
             continue
+        conflict = z3.Or(z3.And(M.mem(OLD, Fl), z3.Not(M.eq(M.mget(OLD, Fl), TF))), z3.And(M.mem(OLD, Cx), z3.Not(M.eq(M.mget(OLD, Cx), TC))))
+        r = pr.prove(pc, z3.Not(conflict))
+        extra = {}
+        if r.status == 'refuted':
+            src = ("from beartype import BeartypeConf, FrozenDict\nfrom beartype.roar import BeartypeConfParamException\nbad = []\nfor k, v in ((float, None), (complex, None), (float, str)):\n"
+                   "    try: c = BeartypeConf(is_pep484_tower=True, hint_overrides=FrozenDict({k: v})); bad.append(f'{k.__name__}: {v!r} accepted; reads back {c.hint_overrides[k]!r}')\n    except BeartypeConfParamException: pass\nprint(bad); sys.exit(1 if bad else 0)\n")
+            import subprocess
+            from pyvc import REPO
+            p_ = subprocess.run([sys.executable, '-c', f'import sys; sys.path.insert(0, {REPO!r})\n' + src], capture_output=True, text=True)
+            extra = dict(replay=dict(kind='C18', reproduced=p_.returncode == 1, detail=p_.stdout.strip()[-300:]), replay_script=(f"sys.path.insert(0, os.environ.get('VERIF_REPO', {REPO!r}))\n" + src) if p_.returncode == 1 else None)
+        rep.add(f'C18.sanify_tower.post.returns_only_without_conflict.path{i}', r.status, time=r.time, backend=r.backend, reason=r.reason, **extra,
+                where='normal return only if the user did not override float / complex with something other than the tower entry - whatever the override value is (None and other falsy hints included)')
         cur = dict(s_.hget(('dict', ref.rid), ())).get('hint_overrides')
         if cur is None: rep.add(f'C18.sanify_tower.post.path{i}', 'refuted', backend='structural', where='hint_overrides entry missing'); continue
         NEW = ex.obj(cur)
